@@ -118,6 +118,17 @@ def latch(ck, F, E):
                         others = region_aggregates(gs, exclusive_region(gs, tg.get(0, t["otherwise"])))
                         if not any(a[1] == "Errored" for a in others):
                             ok = True
+        if not ok:
+            # `match &self.latest_error { Some(_) => Errored, None => .. }`
+            for sb in sorted(gs.reachable()):
+                info = gs.switch_info(sb)
+                if info and info[3] and set(info[3].values()) == {"None", "Some"} and "latest_error" in show(info[0]):
+                    st = [info[1].get(v, info[2]) for v, n in info[3].items() if n == "Some"]
+                    nt = [info[1].get(v, info[2]) for v, n in info[3].items() if n == "None"]
+                    if st and nt and st[0] is not None and nt[0] is not None:
+                        if any(a[1] == "Errored" for a in region_aggregates(gs, exclusive_region(gs, st[0]))) and \
+                                not any(a[1] == "Errored" for a in region_aggregates(gs, exclusive_region(gs, nt[0]))):
+                            ok = True
         ck.require(ok, "C19:LATCH:get_state-errored", "latch discipline", "get_state reports Errored iff latest_error.is_some()",
                    "get_state no longer reports Errored exactly when an error is latched", gs.span)
 
